@@ -265,6 +265,9 @@ pub fn kind_strategy() -> impl Strategy<Value = u32> {
         20 => 0u32..=21,
         2 => 22u32..=40,
         1 => any::<u32>(),
+        // custom types that look like a specified one in their lower half-word / byte
+        1 => (0u32..=21, 1u32..=0xFFFF).prop_map(|(k, h)| k | h << 16),
+        1 => (0u32..=21, 1u32..=0xFF_FFFF).prop_map(|(k, h)| k | h << 8),
     ]
 }
 
@@ -325,7 +328,14 @@ pub struct ConfTag {
 
 pub fn conf_tag() -> impl Strategy<Value = ConfTag> {
     (1u32..=21, prop_oneof![4 => 0u16..5, 1 => 5u16..30], any::<u32>(), any::<u64>())
-        .prop_map(|(kind, n, sel, key)| ConfTag { kind, n, sel, key })
+        .prop_map(|(kind, n, mut sel, key)| {
+            // framebuffer: every second tag carries one of the three defined type
+            // bytes (the other half is uniform over all 256 values)
+            if kind == 8 && (sel >> 8) & 1 == 1 {
+                sel = (sel & !0xff) | ((sel & 0xff) % 3);
+            }
+            ConfTag { kind, n, sel, key }
+        })
 }
 
 /// Spec-conformant boot information: conformant tags (no interior end tag),
